@@ -172,6 +172,29 @@ PROPS = {
                       "cell_to_boundary itself is proved.",
         "technique": "Verus contract on the extracted real cell_to_boundary with the float layer as assumed contract boundary",
     },
+    "C13": {
+        "units": ["memo"],
+        "level": "proof",
+        "assumptions": [
+            "ONLY single-thread history independence of the two lazily filled projection caches (30 + 240 slots) is decided",
+            "ASSUMED, not decided: thread_local! gives each thread its own DodecahedronProjection; get_thread_local() hands out "
+            "&'static mut from a raw pointer (unsafe; aliasing discipline not checked); OnceLock / lazy_static initialise once with the "
+            "initialiser's value. Kani has no threads and Verus would need the code rewritten over its permission types - the schedule "
+            "half of C13 is out of reach of this technique",
+            "ASSUMED: the float callees (get_base_face_triangle, get_reflected_face_triangle, compute_spherical_triangle) are "
+            "deterministic functions of their explicit arguments (spec_ft / spec_st) and compute_spherical_triangle preserves the "
+            "invariant; CRS::invocations (a counter) does not flow into results",
+            "precondition origin_id < 12 on get_spherical_triangle (derived from its callers; with origin_id in 12..23 the slot index "
+            "collides with a reflected slot - not reachable through the public API)",
+        ],
+        "search_ops": [],
+        "level_text": "Proof (Verus/Z3) on the real get_face_triangle and get_spherical_triangle (&mut self, Vec<Option<_>> caches): "
+                      "representation invariant 'every filled slot holds the value of its own key' is preserved, the result equals "
+                      "spec(key) whatever the cache contents (history independence on one thread), and only the call's own slot changes.",
+        "level_note": "The slot-index arithmetic (idx + 10/20, 10*origin + idx + 120) is what the proof pins: any collision between "
+                      "two keys breaks the invariant or the result postcondition.",
+        "technique": "Verus representation invariant + frame conditions on extracted real &mut self methods",
+    },
     "C18": {
         "kani": K3 + [K1],
         "kani_jobs": 14,
@@ -184,7 +207,7 @@ PROPS = {
             "K3 builds each face's Origin from the reference (first_quintant, orientation) table; K1 proves the real generate_origins() "
             "produces exactly that table; the relabelling functions read no other field",
         ],
-        "search_ops": [],
+        "search_ops": ["reference"],
         "level_text": "Complete finite proof (Kani/CBMC, no symbolic input, unwinding assertions on) on the real quintant_to_segment, "
                       "segment_to_quintant and is_layout_clockwise: for each of the 12 faces and 5 quintants both round trips are "
                       "identities, the segment map is a permutation and the orientation is preserved both ways; the face table used is "
@@ -225,7 +248,7 @@ PROPS = {
             "NOT decided: that the f64 pipeline (polyhedral / gnomonic / authalic functions, pentagon constants computed with sin/cos, "
             "ij_to_s on real coordinates) computes the same values as the reference for all inputs, and the 'within 1e-9 degrees' sentence",
         ],
-        "search_ops": ["roundtrip"],
+        "search_ops": ["reference", "roundtrip"],
         "level_text": "Proof that the integer labelling stages equal the frozen reference release: Verus (bit layout of the real "
                       "serialize/deserialize/get_resolution == documented layout with the reference face table) and complete closed-term "
                       "Kani harnesses on the real code (face table and frames bit-for-bit, relabelling 12x5, digit-shift and flip tables, "
@@ -279,6 +302,7 @@ TRUSTED = {
     "tree": ["external_body err_msg", "external_body get_origins", "assume_specification usize::pow",
              "assume_specification u64::pow", "assume_specification u64::saturating_pow"],
     "glue": None,
+    "memo": None,
     "compact": ["external_body err_msg", "external_body get_origins", "assume_specification usize::pow",
                 "assume_specification u64::pow", "assume_specification u64::saturating_pow",
                 "external_body U64Set", "external_body std_collect_set", "external_body std_set_into_vec",
@@ -294,6 +318,6 @@ NOT_APPLICABLE = {
     "C16": "local area preservation needs real analysis of the IVEA formulas over f64 code; out of reach",
     "C19": "authalic series inverse/monotone/odd to 1e-12: Clenshaw sums of sin/cos over f64; out of reach",
  "C07": "not built yet", 
-"C10": "not built yet",  "C13": "not built yet (tier B)",
+"C10": "not built yet",  
 "C17": "not built yet (tier B)",  
 }
